@@ -48,6 +48,21 @@ fn main() {
         println!("{}", compose::render_js(&p.marked));
         return;
     }
+    if id == "leak-probe" {
+        // tsverif leak-probe <file.js> : live objects after collect over 8 runs on one interpreter
+        let src = std::fs::read_to_string(&cmd).expect("read");
+        let log = std::rc::Rc::new(std::cell::RefCell::new(Vec::new()));
+        let mut interp = runner::new_interp(&log);
+        let cfg = runner::RunConfig::default();
+        let mut v = Vec::new();
+        for _ in 0..8 {
+            let o = runner::run_on(&mut interp, &log, &src, &cfg);
+            interp.collect();
+            v.push(format!("{}:{}", o.kind, interp.gc_stats().live_objects));
+        }
+        println!("{} {:?}", v.join(" "), interp.verif_quiescence());
+        return;
+    }
     if id == "probe" {
         // tsverif probe <file.js> [--gc N] [--path P] [--eval] : print the outcome tuple
         let src = std::fs::read_to_string(&cmd).expect("read");
